@@ -77,6 +77,9 @@ def containers(x, acc, depth=0):
         acc.add(id(x))
         for v in x:
             containers(v, acc, depth + 1)
+    elif getattr(x, "__dict__", None):
+        # a leaf that carries assignable attributes (the library's timestamp class and its precision metadata) is mutable state
+        acc.add(id(x))
 
 
 class Guard:
@@ -209,6 +212,15 @@ def wl_sequence(ctx, rng, i):
             ctx.count("deepcopies")
             G.watch("deep copy", cp)
         G.call("copy:copy", lambda: copy.copy(obj))
+        holder = {"values": [v for v in obj.values() if getattr(v, "__dict__", None)][:3]}
+        if holder["values"]:
+            hc = copy.deepcopy(holder)
+            ctx.ev()
+            if any(x is y for x, y in zip(hc["values"], holder["values"])):
+                ctx.violation("deepcopy-shares-state", "a deep copy of a dictionary holding the object's timestamp values shares them with the original", dict(case, values=[repr(v) for v in holder["values"]]))
+            if [(v, getattr(v, "precision", None), getattr(v, "precision_constraint", None)) for v in hc["values"]] != \
+                    [(v, getattr(v, "precision", None), getattr(v, "precision_constraint", None)) for v in holder["values"]]:
+                ctx.violation("deepcopy-not-equal", "a deep copy of the object's timestamp values lost their precision metadata", dict(case, values=[repr(v) for v in holder["values"]]))
         # direct mutation attempts
         some = next(iter(k for k in obj if k not in ("type",)), "id")
         refusal(ctx, "attribute-assignment", lambda: setattr(obj, some, "x"), case)
@@ -307,6 +319,19 @@ def wl_sequence(ctx, rng, i):
                 G.call("factory:create-none", lambda: fac.create(stix2.v21.Identity, **kwn), defaults=defaults, kwargs=kwn)
                 env = stix2.Environment(factory=fac)
                 G.call("factory:Environment.create-single-values", lambda: env.create(stix2.v21.Identity, **kws), defaults=defaults, kwargs=kws)
+                # environments built earlier are not changed by settings made on another one
+                env_old = stix2.Environment()
+                before_env = env_old.create(stix2.v21.Identity, name="n", id=d["id"], created="2020-01-01T00:00:00Z", modified="2020-01-01T00:00:00Z")
+                env_new = stix2.Environment()
+                G.call("environment:set_default_creator(other environment)", lambda: env_new.set_default_creator(d["id"]))
+                G.call("environment:set_default_object_marking_refs(other environment)", lambda: env_new.set_default_object_marking_refs([M.TLP["amber"]]))
+                after_env = stix2.Environment().create(stix2.v21.Identity, name="n", id=d["id"], created="2020-01-01T00:00:00Z", modified="2020-01-01T00:00:00Z")
+                again_env = env_old.create(stix2.v21.Identity, name="n", id=d["id"], created="2020-01-01T00:00:00Z", modified="2020-01-01T00:00:00Z")
+                ctx.ev()
+                if again_env.serialize() != before_env.serialize() or after_env.serialize() != before_env.serialize():
+                    ctx.violation("environment-settings-leak", "a default set on one Environment changed what another Environment creates",
+                                  {"before": json.loads(before_env.serialize()), "earlier_environment_after": json.loads(again_env.serialize()),
+                                   "fresh_environment_after": json.loads(after_env.serialize())})
                 first = G.call("factory:create-plain", lambda: fac.create(stix2.v21.Identity, name="n"), defaults=defaults)
                 if first is not None and hasattr(first, "get") and (len(first.get("object_marking_refs", [])) != 1 or len(first.get("external_references", [])) != 1):
                     ctx.violation("factory-state-drift", "after earlier create() calls the factory hands out more than its configured defaults",
